@@ -4668,6 +4668,22 @@ def _parse_program(src: str) -> Program:
     }
     ctx["vars"]["_helpers"] = ctx["helpers"]
 
+    # A helper may call a helper that is defined further down.  Make the source of
+    # every helper known before any body is analysed, so that the variant the call
+    # needs - and with it the callee's result type - can be generated on demand.
+    scan = 0
+    while scan < len(lines):
+        scan_raw = lines[scan]
+        if _indent_of(scan_raw) == 0 and scan_raw.strip():
+            m_scan = RE_DEF.match(_normalise_line(_strip_inline_comment(scan_raw).strip()))
+            if m_scan:
+                scan_block, scan = _collect_block(lines, scan)
+                ctx["function_sources"].setdefault(
+                    m_scan.group(1), (m_scan.group(2), list(scan_block))
+                )
+                continue
+        scan += 1
+
     i = 0
     while i < len(lines):
         raw = lines[i]
